@@ -11,9 +11,11 @@ from astlib import to_text, vars_of
 from cases import dt_obj
 
 
-def simulate(name, formulas, vars_, vals=(-2, 1, 3), gaps=(1,), num=300, depth=8, seed=0, workers=8, timeout=600, mode="online"):
+def simulate(name, formulas, vars_, vals=(-2, 1, 3), gaps=(1,), num=300, depth=8, seed=0, workers=8, timeout=600, mode="online", configs=None):
+    """configs: the configurations an object may be created with and - offline - re-configured to (action Reconfigure)"""
     mod = "MC_" + name
     cfgrec = {"S": 1, "M": {"sem": "standard", "io": {v: "output" for v in vars_}}, "vars": set(vars_), "period": 1, "tol": 0}
+    cfgtext = tla(cfgrec) if not configs else ", ".join(tla(c) for c in configs)
     text = """---- MODULE %s ----
 EXTENDS Rtamt, Json
 VARIABLE log
@@ -22,7 +24,8 @@ ConfigsDef == {%s}
 ValsDef == %s
 GapsDef == %s
 RInit == Init /\\ log = <<>>
-RNext == \\/ \\E f \\in Formulas : Parse(1, f) /\\ log' = Append(log, [a |-> "parse", phi |-> f])
+RNext == \\/ \\E f \\in Formulas : Parse(1, f) /\\ log' = Append(log, [a |-> "parse", phi |-> f, cfg |-> ms[1].cfg])
+         \\/ \\E c \\in Configs : Reconfigure(1, c) /\\ log' = Append(log, [a |-> "config", cfg |-> c])
          \\/ PastifyA(1) /\\ log' = Append(log, [a |-> "pastify"])
          \\/ Repastify(1) /\\ log' = Append(log, [a |-> "pastify"])
          \\/ \\E s \\in Samples(ms[1].cfg.vars), g \\in Gaps :
@@ -34,7 +37,7 @@ RSpec == RInit /\\ [][RNext]_<<ms, log>>
 \\* always true; prints the behaviour when it has reached the requested depth
 Emit == (Len(log) = %d) => PrintT("BEHAVIOUR " \\o ToJson(log))
 ====
-""" % (mod, tla_set(formulas), tla(cfgrec), tla(set(vals)), tla(set(gaps)), depth)
+""" % (mod, tla_set(formulas), cfgtext, tla(set(vals)), tla(set(gaps)), depth)
     cfg = """CONSTANTS
  K = 1
  Configs <- ConfigsDef
@@ -51,7 +54,9 @@ INVARIANT InvC02
 INVARIANT InvC03
 INVARIANT InvC10
 INVARIANT InvC13
+INVARIANT InvC01cfg
 PROPERTY ActC16
+PROPERTY ActReconf
 """ % (depth, mode)
     wd = tlc.workdir(name)
     with open(os.path.join(wd, mod + ".tla"), "w") as f:
@@ -91,6 +96,11 @@ def to_cases(behs, vars_, factories=("StlDiscreteTimeSpecification", "StlDiscret
         seen.add(key)
         phi = b[0]["phi"]
         obj = dt_obj(phi, 1, list(vars_), factory=factories[i % len(factories)])
+        c0 = b[0].get("cfg")
+        if c0 and (c0["tol"] != 0 or c0["M"]["sem"] != "standard"):
+            # created with another configuration than the default one
+            obj.update({"mode": c0["M"], "set_io": True, "period": c0["period"], "tol": c0["tol"], "unit": "s",
+                        "set_period": [c0["period"], "s", c0["tol"] / float(c0["period"])]})
         evs, w, ts = [], {}, []
         for e in b:
             if e["a"] == "parse":
@@ -99,6 +109,11 @@ def to_cases(behs, vars_, factories=("StlDiscreteTimeSpecification", "StlDiscret
                 evs.append({"o": 1, "a": "pastify"})
             elif e["a"] == "reset":
                 evs.append({"o": 1, "a": "reset"})
+            elif e["a"] == "config":
+                # Reconfigure: set_sampling_period() with the new tolerance, set_var_io_type() of every variable and parse() again
+                c = e["cfg"]
+                evs.append({"o": 1, "a": "config", "set_period": [c["period"], "s", c["tol"] / float(c["period"])], "period": c["period"],
+                            "tol": c["tol"], "io": c["M"]["io"]})
             elif e["a"] == "extend":
                 # evaluate() on the trace extended by one sample, on the same object
                 for v in vars_:
@@ -110,5 +125,7 @@ def to_cases(behs, vars_, factories=("StlDiscreteTimeSpecification", "StlDiscret
                 evs.append({"o": 1, "a": "update", "t": e["t"], "s": e["s"] if isinstance(e["s"], dict) else {}})
         if any(e["a"] == "extend" for e in b):
             obj["factory"] = ("StlDiscreteTimeSpecification", "StlDiscreteTimeOfflineSpecification")[i % 2]
+            if obj["mode"]["sem"] != "standard":
+                obj["factory"] = "StlDiscreteTimeSpecification"     # (the offline-only class takes no semantics argument)
         cases.append({"objs": [obj], "events": evs, "rels": [], "skip": [], "from": "tlc-simulation"})
     return cases
